@@ -87,7 +87,14 @@ static void check_step(int mode, const a_pid &b, const a_pid &a, double set, dou
             if (inward && !near(a.sum, integ, std::fabs(b.sum) + std::fabs(inc))) { ck.fail("integrator-release", "beyond the clamp with the error pointing inward the integrator must integrate back: " + num(b.sum) + " -> " + num(a.sum) + ", expected " + num(integ)); return; }
             if (!inward && a.sum != b.sum) { ck.fail("integrator-hold", "beyond the clamp with the error pointing outward the integrator must hold: " + num(b.sum) + " -> " + num(a.sum)); return; }
         }
-        else if (a.sum != b.sum && !near(a.sum, integ, std::fabs(b.sum) + std::fabs(inc))) { ck.fail("integrator-equation", "at the clamp the integrator must hold or integrate"); return; } // exactly on the clamp: either is accepted
+        else
+        {
+            // exactly on the clamp.  The documented switch (pid.h: q = 0 when |sum| > E or sum*e > 0, else q = 1) integrates when the
+            // error points back inside; with the error pointing outward, or a clamp at zero, holding and integrating are both accepted
+            bool inward = (b.sum > 0 && err < 0) || (b.sum < 0 && err > 0);
+            if (inward && !near(a.sum, integ, std::fabs(b.sum) + std::fabs(inc))) { ck.fail("integrator-release", "exactly on the clamp with the error pointing inward the integrator must integrate back: " + num(b.sum) + " -> " + num(a.sum) + ", expected " + num(integ)); return; }
+            if (a.sum != b.sum && !near(a.sum, integ, std::fabs(b.sum) + std::fabs(inc))) { ck.fail("integrator-equation", "at the clamp the integrator must hold or integrate"); return; }
+        }
         double raw = kp * err + a.sum + kd * var;
         if (limit_active && raw != sat(raw, b.outmin, b.outmax)) { *limit_active = true; }
         if (!near(a.out, sat(raw, b.outmin, b.outmax), std::fabs(kp * err) + std::fabs(a.sum) + std::fabs(kd * var))) { ck.fail("pos-equation", "positional output " + num(a.out) + " is not sat(kp*err + sum + kd*(fdb_prev - fdb)) = " + num(sat(raw, b.outmin, b.outmax))); }
@@ -625,6 +632,67 @@ struct FuzzyH
     }
 };
 
+// ---------------------------------------------------------------------------- rule base replaced in mid-history
+// The explorations keep one rule base per controller.  Here a controller that has run one step on one rule base of the
+// 3x3 family (all three tables, or one of them absent) is given another by a_pid_fuzzy_set_rule and stepped again: the
+// step after the switch is checked exactly like any other step of the new rule base (a gain whose table is now absent
+// is the base gain again, not the value scheduled last).
+static void fuzzy_switch(const std::string &job, const std::vector<Params> &sets, bool thorough)
+{
+    static const size_t FAM[4] = {0, 4, 7, 8};
+    const std::vector<double> A = thorough ? std::vector<double>{-3, -1, -0.5, 0, 0.25, 1, 2.5} : std::vector<double>{-3, -0.5, 0, 0.25, 1};
+    unsigned long long steps = 0, bad = 0;
+    for (int opr = 0; opr < 7; ++opr)
+    {
+        for (size_t pi = 0; pi < 2; ++pi)
+        {
+            for (size_t from = 0; from < 4; ++from)
+            {
+                for (size_t to = 0; to < 4; ++to)
+                {
+                    if (from == to) { continue; }
+                    FuzzyH h0, h1;
+                    h0.B = &BASES[FAM[from]]; h1.B = &BASES[FAM[to]];
+                    h0.opr = h1.opr = opr;
+                    h0.P = h1.P = sets[(pi * 5) % sets.size()];
+                    h0.A = h1.A = A;
+                    bool reported = false;
+                    for (int m0 = 0; m0 < 3 && !reported; ++m0)
+                    for (size_t i0 = 0; i0 < A.size() && !reported; ++i0)
+                    for (size_t j0 = 0; j0 < A.size() && !reported; ++j0)
+                    for (int m1 = 0; m1 < 3 && !reported; ++m1)
+                    for (size_t i1 = 0; i1 < A.size() && !reported; ++i1)
+                    for (size_t j1 = 0; j1 < A.size() && !reported; ++j1)
+                    {
+                        FuzzyH::Buf buf(3);
+                        a_pid_fuzzy c, b;
+                        h0.setup(c, buf);
+                        xs::Op o0{m0, (long)i0, (long)j0, 0}, o1{m1, (long)i1, (long)j1, 0};
+                        h0.apply(c, o0);
+                        a_pid_fuzzy_set_rule(&c, h1.B->n, h1.B->me, h1.B->mec, h1.B->kp, h1.B->ki, h1.B->kd);
+                        b = c;
+                        h1.apply(c, o1);
+                        Ck ck;
+                        h1.check(b, c, o1, buf, ck);
+                        ++steps;
+                        if (!ck.ok())
+                        {
+                            ++bad;
+                            reported = true; // one report per (operator, parameters, from, to)
+                            vx::viol(std::string("pid_fuzzy|rule-base-switch|") + mode_name[m1] + "|" + ck.cls,
+                                     std::string("after ") + h0.op_str(o0) + " on \"" + h0.B->name + "\" the rule base was replaced by \"" + h1.B->name + "\" (a_pid_fuzzy_set_rule); the next step " + h1.op_str(o1) + " (" + OPRN[opr] + ", " + h1.P.str() + "): " + ck.err,
+                                     "{\"job\":" + vx::jstr(job) + ",\"scenario\":\"rule-base-switch\",\"from\":" + vx::jstr(h0.B->name) + ",\"to\":" + vx::jstr(h1.B->name) + ",\"operator\":" + vx::jstr(OPRN[opr]) + ",\"first\":" + vx::jstr(h0.op_str(o0)) + ",\"second\":" + vx::jstr(h1.op_str(o1)) + "}");
+                        }
+                    }
+                }
+            }
+        }
+    }
+    (void)bad;
+    vx::stat("rule_base_switch_steps", (long long)steps);
+    vx::sample("{\"job\":" + vx::jstr(job) + ",\"case\":\"rule base replaced in mid-history: 7 operators x 2 parameter sets x 12 ordered pairs of the 3x3 family (full, without kp / ki / kd table) x every first step x every second step (3 modes x " + std::to_string(A.size() * A.size()) + " inputs each), the second step checked like any step of the new rule base\"}");
+}
+
 // ---------------------------------------------------------------------------- parameter sets
 static std::vector<Params> param_sets(bool thorough)
 {
@@ -748,6 +816,7 @@ int main(int argc, char **argv)
                 }
             }
         }
+        if (mode == "fuzzy" && !replay && only < 0 && shard == 0) { fuzzy_switch(job, sets, thorough); }
         if (!replay)
         {
             vx::stat("states", (long long)g_states);
